@@ -253,7 +253,7 @@ func genSep(r *Rng, o wlOpt) SepCfg {
 			c := CharCfg{Length: 1 + r.Intn(2), Allow: pick(r, []uint32{3, 7, 1}), RequireSets: []string{pick(r, []string{"7", "!", "é"})}}
 			return SepCfg{Kind: "recipe", Recipe: &c}
 		}
-		c := genCharCfg(r, charOpt{small: true, budget: 12, maxLen: 2, taint: o.taint, maxReq: 1, noEmptied: true})
+		c := genCharCfg(r, charOpt{small: true, budget: 12, maxLen: 2, taint: o.taint, maxReq: 1, noEmptied: r.Chance(0.7)})
 		if o.sweepable {
 			c.RequireSets = nil
 			c.Require = 0
@@ -395,7 +395,7 @@ func bigAlphabet(r *Rng, n int) string {
 
 // genLargeCharCfg: long passwords and / or big alphabets with a few small requirements.
 func genLargeCharCfg(r *Rng) CharCfg {
-	c := genCharCfg(r, charOpt{maxLen: 24, maxReq: 3, noEmptied: true})
+	c := genCharCfg(r, charOpt{maxLen: 24, maxReq: 3, noEmptied: r.Chance(0.7)})
 	c.Length = pick(r, []int{4, 8, 8, 16, 32, 64, 100, 127, 128, 129, 150, 200, 256, 300})
 	switch r.Intn(4) {
 	case 0:
